@@ -510,4 +510,24 @@ theorem simpleCustomize_verdicts (F : Facts15) [DeepCopy F] (src : Nat) (kw : Kw
     exact this
   simp only [verdicts, hk, hlo, hhi, hfun]
 
+/-- customising twice (first with the general keywords `d`, then with the specific ones `e`): the specific
+    writes win, then the general ones, then the source -/
+theorem simpleCustomize_twice_exact (F : Facts15) [DeepCopy F] (t : Nat) (d e : Kw) (h h1 h2 : Heap) (t1 t2 : Nat)
+    (ih : Inv h) (tc : Cls) (htc : h.cls[t]? = some tc)
+    (r1 : simpleCustomize F t d h = .ok h1 t1) (r2 : simpleCustomize F t1 e h1 = .ok h2 t2) (k : String) :
+    ∃ c1, h1.cls[t1]? = some c1 ∧ c1.kind = tc.kind ∧
+      attrOf h2 t2 k =
+        match kwLookup (newAttrRec F h1 c1.attrs (if c1.kind == .number then numberKw F h1 c1.attrs e else e)).own k with
+        | some v => some v
+        | none =>
+          match kwLookup (newAttrRec F h tc.attrs (if tc.kind == .number then numberKw F h tc.attrs d else d)).own k with
+          | some v => some v
+          | none => attrOf h t k := by
+  obtain ⟨c1, hc1, hk1, _, _⟩ := simpleCustomize_cls F t d h h1 t1 tc htc r1
+  have ih1 : Inv h1 := by
+    have := (keeps_simpleCustomize F t d h ih trivial).1
+    rw [r1] at this; exact this
+  refine ⟨c1, hc1, hk1, ?_⟩
+  rw [simpleCustomize_exact F t1 e h1 h2 t2 ih1 c1 hc1 r2 k, simpleCustomize_exact F t d h h1 t1 ih tc htc r1 k]
+
 end SpyneModel.Derive
